@@ -310,7 +310,7 @@ func sanitizeCNI(in []byte) []byte {
 	if json.Unmarshal(doc["env"], &env) != nil || env == nil {
 		return in
 	}
-	if id, ok := env["CNI_CONTAINERID"].(string); ok && !safeID.MatchString(id) {
+	if id, ok := env["CNI_CONTAINERID"].(string); ok && (!safeID.MatchString(id) || !strings.HasPrefix(id, "gxv18")) {
 		h := fnv.New32a()
 		h.Write([]byte(id))
 		env["CNI_CONTAINERID"] = fmt.Sprintf("gxv18h%x", h.Sum32())
